@@ -138,6 +138,9 @@ class World:
                     wx.attrs['_main_ds'] = OpenDs()      # a ground-speed query opened the day's file
                     wx.attrs['_ds'] = wx.attrs['_main_ds']
                 self.maybe_raise(I_, ['out-of-envelope'] if self.slim else ['out-of-envelope', 'outside-weather-domain'], name)
+                if name == 'fly_climb' and len(a) > 1 and isinstance(a[1], Traj):
+                    # C02 (level-change.climb): the first appended point carries the builder's current starting mass and trip fuel
+                    a[1].attrs['__first__'] = (I_.getattr(a[0], 'starting_mass'), I_.getattr(a[0], 'total_fuel_mass'))
                 return None
             return f
         for ph in ('fly_climb', 'fly_cruise', 'fly_descent'):
@@ -214,6 +217,10 @@ def loop_contract(h, tol):
         if fuel is None:
             return z3.BoolVal(False)
         conj = [to_real(tv.attrs['__res__']) == rv, to_real(fuel) > 0, rv < 1]
+        first = tv.attrs.get('__first__')
+        if first is not None:
+            # the trajectory in hand was flown from the builder's current starting mass and trip fuel
+            conj += [to_real(first[0]) == to_real(I.getattr(b, 'starting_mass')), to_real(first[1]) == to_real(fuel)]
         for k in names:
             if k in loc and is_bool(loc[k]):
                 f = loc[k] if z3.is_expr(loc[k]) else z3.BoolVal(loc[k])
@@ -234,6 +241,8 @@ def loop_contract(h, tol):
             if k == t:
                 nt = Traj(w.fresh_real('havoc_final_mass'), w.tag)
                 nt.attrs['__res__'] = w.fresh_real('havoc_res')
+                if isinstance(v, Traj) and '__first__' in v.attrs:
+                    nt.attrs['__first__'] = (w.fresh_real('havoc_first_mass'), w.fresh_real('havoc_first_fuel'))
                 loc[k] = nt
             elif is_bool(v):
                 w.n += 1
